@@ -8,6 +8,7 @@ import (
 	"context"
 	"errors"
 	"fmt"
+	"hash/crc32"
 	"strings"
 	"time"
 
@@ -94,6 +95,58 @@ func (f *Fail) Error() string {
 
 // Keys is the key alphabet ("" means "no key").
 var Keys = []string{"k1", "k2", "k3", "k4", "", "k5", "k6", "k7", "k8", "k9", "a-much-longer-affinity-key/with.dots:and-unicode-ключ-0123456789012345678901234567890123456789", "K1"}
+
+// Keys 12.. are pairs (12,13), (14,15), ... that collide under a common string hash - 32-bit FNV-1a, 32-bit FNV-1,
+// CRC-32 (IEEE), the 31-multiplier hash ("Aa"/"BB"), 64-bit FNV-1a truncated to 32 bits - found by a
+// birthday search: a summary structure keyed by such a hash must not confuse the two keys of a pair.
+func init() {
+	fnv1a := func(s string) uint32 {
+		h := uint32(2166136261)
+		for i := 0; i < len(s); i++ {
+			h ^= uint32(s[i])
+			h *= 16777619
+		}
+		return h
+	}
+	fnv1 := func(s string) uint32 {
+		h := uint32(2166136261)
+		for i := 0; i < len(s); i++ {
+			h *= 16777619
+			h ^= uint32(s[i])
+		}
+		return h
+	}
+	fnv64lo := func(s string) uint32 {
+		h := uint64(14695981039346656037)
+		for i := 0; i < len(s); i++ {
+			h ^= uint64(s[i])
+			h *= 1099511628211
+		}
+		return uint32(h)
+	}
+	java := func(s string) uint32 {
+		h := uint32(0)
+		for i := 0; i < len(s); i++ {
+			h = 31*h + uint32(s[i])
+		}
+		return h
+	}
+	// found once by a birthday search over "sessions/<letter><n>"; checked here
+	for _, hp := range []struct {
+		h    func(string) uint32
+		a, b string
+	}{{fnv1a, "sessions/a1079599", "sessions/a1262382"}, {fnv1, "sessions/b1049599", "sessions/b1212382"},
+		{func(s string) uint32 { return crc32.ChecksumIEEE([]byte(s)) }, "sessions/c29685295", "sessions/c32060020"},
+		{java, "sessions/Aa", "sessions/BB"}, {fnv64lo, "sessions/d800006", "sessions/d1157020"}} {
+		if hp.a == hp.b || hp.h(hp.a) != hp.h(hp.b) {
+			panic("harness: keys " + hp.a + " and " + hp.b + " do not collide")
+		}
+		Keys = append(Keys, hp.a, hp.b)
+	}
+}
+
+// HashPairs is the number of colliding key pairs appended to Keys (pair i is Keys[12+2i], Keys[13+2i]).
+const HashPairs = 5
 
 // Method describes one configured (or unconfigured) method name.
 type Method struct {
